@@ -28,6 +28,7 @@ type c12FNode struct {
 type c12FValue struct {
 	Static   string `json:"static,omitempty"`   // JSON text of a static value
 	Variable string `json:"variable,omitempty"` // name of a context variable
+	Prefix   string `json:"prefix,omitempty"`   // with Variable: a two-segment template, static prefix + variable (a string)
 }
 
 // the values of one IN list come from one argument of the subscription field: they are of one type
@@ -73,6 +74,13 @@ func c12FGen(r *rand.Rand, depth int, vars map[string]any) *c12FNode {
 	n := &c12FNode{Kind: "in", Field: pick(r, []string{"s", "n", "b", "t", "missing"})}
 	kind := r.Intn(4)
 	for i := 1 + r.Intn(4); i > 0; i-- {
+		if (kind == 0 || kind == 3) && r.Intn(6) == 0 {
+			// a template of two segments: always compared as a string
+			name := fmt.Sprintf("v%d", len(vars))
+			vars[name] = pick(r, []string{"a", "b", "y", ""})
+			n.Values = append(n.Values, c12FValue{Variable: name, Prefix: pick(r, []string{"", "a ", "x\""})})
+			continue
+		}
 		if r.Intn(3) == 0 {
 			name := fmt.Sprintf("v%d", len(vars))
 			if r.Intn(3) == 0 {
@@ -115,6 +123,12 @@ func (n *c12FNode) build() *resolve.SubscriptionFilter {
 	}
 	in := &resolve.SubscriptionFieldFilter{FieldPath: []string{"data", n.Field}}
 	for _, v := range n.Values {
+		if v.Variable != "" && v.Prefix != "" {
+			in.Values = append(in.Values, resolve.InputTemplate{Segments: []resolve.TemplateSegment{
+				{SegmentType: resolve.StaticSegmentType, Data: []byte(v.Prefix)},
+				{SegmentType: resolve.VariableSegmentType, VariableKind: resolve.ContextVariableKind, VariableSourcePath: []string{v.Variable}, Renderer: resolve.NewPlainVariableRenderer()}}})
+			continue
+		}
 		if v.Variable != "" {
 			in.Values = append(in.Values, resolve.InputTemplate{Segments: []resolve.TemplateSegment{{SegmentType: resolve.VariableSegmentType,
 				VariableKind: resolve.ContextVariableKind, VariableSourcePath: []string{v.Variable}, Renderer: resolve.NewPlainVariableRenderer()}}})
@@ -176,7 +190,9 @@ func (n *c12FNode) eval(event map[string]any, vars map[string]any) bool {
 	}
 	for _, v := range n.Values {
 		var val any
-		if v.Variable != "" {
+		if v.Variable != "" && v.Prefix != "" {
+			val = v.Prefix + fmt.Sprint(vars[v.Variable])
+		} else if v.Variable != "" {
 			val = vars[v.Variable]
 		} else {
 			dec := json.NewDecoder(strings.NewReader(v.Static))
